@@ -282,8 +282,8 @@ func runOp(f []string) string {
 			if crc32.ChecksumIEEE([]byte(strings.Join(f, " ")))%3 == 0 { // a third of the calls use a reader of an uncomparable type
 				src = valueReader{r: rd, pad: []byte{1}}
 			}
-			old := bip39.VerifSwapRandSource(src)
-			defer bip39.VerifSwapRandSource(old)
+			old := swapRandSource(src)
+			defer swapRandSource(old)
 			s, err := bip39.NewMnemonic(atoi(f[1]), lang(f[2]))
 			rs := "0"
 			if rd.reads > 0 {
@@ -405,8 +405,8 @@ func runOp(f []string) string {
 		swapMu.Lock()
 		defer swapMu.Unlock()
 		probe := &scriptReader{}
-		old := bip39.VerifSwapRandSource(probe)
-		back := bip39.VerifSwapRandSource(old)
+		old := swapRandSource(probe)
+		back := swapRandSource(old)
 		return fmt.Sprintf("default-is-crypto-rand=%v restored=%v", old == rand.Reader, back == io.Reader(probe))
 	case "G": // G n lang count: default-source mnemonics
 		var sb strings.Builder
